@@ -1,15 +1,18 @@
 /- Driver/Update — C18 model driver: slot/gate decisions, chunk bookkeeping, boot-mark decision -/
 import SuplaVerif.Model.Update
+import SuplaVerif.Model.UpdHdr
 import SuplaVerif.Gen.Consts
 import Driver.Common
 namespace Driver.UpdateDrv
 open SuplaVerif Driver
 
-abbrev St := Upd
+/-- the response head being collected: (bytes so far, 0 collecting / 1 complete / 2 too long) -/
+abbrev Hd := Bytes × Nat
+abbrev St := Upd × Hd
 
-def init : St := { addr := 0, awo := 0, buffPos := 0, downloaded := 0, expected := 0 }
+def init : St := ({ addr := 0, awo := 0, buffPos := 0, downloaded := 0, expected := 0 }, ([], 0))
 
-def step (s : St) (toks : List String) : St × List String :=
+def stepU (s : Upd) (toks : List String) : Upd × List String :=
   match toks with
   | ["slot", m, ub] =>
     match m.toNat?, ub.toNat? with
@@ -37,6 +40,26 @@ def step (s : St) (toks : List String) : St × List String :=
     | some f => (s, [s!"MARK {if markBoot Gen.updParams (f.map (·.toNat)) (ok == "1") then 1 else 0} {hashedLen Gen.updParams s}"])
     | none => (s, ["BADOP"])
   | _ => (s, [])
+
+def step (s : St) (toks : List String) : St × List String :=
+  match toks with
+  | ["hdrseg", m, hx] =>
+    match m.toNat?, Bytes.ofHex hx with
+    | some m, some seg =>
+      if s.2.2 != 0 then (s, [])
+      else
+        let r := collect Gen.hdrParams.maxHdr s.2.1 seg 0
+        if r.2.1 == 1 then
+          let sc := hdrScan Gen.hdrParams Gen.updParams m r.1
+          ((s.1, (r.1, 1)), [s!"SCAN {if sc.2 then 1 else 0} {sc.1}"])
+        else ((s.1, (r.1, r.2.1)), [])
+    | _, _ => (s, ["BADOP"])
+  | "slot" :: _ =>
+    let r := stepU s.1 toks
+    ((r.1, ([], 0)), r.2)
+  | _ =>
+    let r := stepU s.1 toks
+    ((r.1, s.2), r.2)
 
 def main : IO Unit := do loop (← IO.getStdin) init step
 end Driver.UpdateDrv
